@@ -244,6 +244,32 @@ inline void innerLengthSweep(Ctx& c, long j)
     c.feature("c04_inner_length_kinds", kindName(kd));
 }
 
+// deterministic: frames carrying hundreds / thousands of small messages (more than 255, more than 4095, more than 64 KiB in total)
+inline void manyMessages(Ctx& c, long j)
+{
+    static const size_t counts[] = {256, 300, 4100, 5000};
+    size_t n = counts[j % 4];
+    Rng r = c.fixedRng(j, 41);
+    Kind kd = (j / 4) ? K_GEN_STATUS : K_GEN_DATA;
+    uint8_t mt = kindMsgType(kd, r);
+    std::vector<GMsg> ms;
+    for (size_t i = 0; i < n; ++i)
+    {
+        uint8_t dummy;
+        GMsg m = genMsg(r, kd, 1, dummy);
+        m.payload = Bytes(i % 4, static_cast<uint8_t>(i));  // lengths 0..3
+        m.ts = i;
+        ms.push_back(std::move(m));
+    }
+    Bytes f = buildFrame(2, 0x0102, mt, 7, 1, ms);
+    Checker ck{c};
+    ASAM::CMP::Decoder dec;
+    ck.check(dec, f, "frame with very many messages", mix64(0x3a9, static_cast<uint64_t>(j)));
+    Bytes t(f.begin(), f.begin() + static_cast<long>(f.size() - 1));
+    ck.check(dec, t, "frame with very many messages cut short", mix64(0x3aa, static_cast<uint64_t>(j)));
+    c.count("frames_with_hundreds_of_messages", 2);
+}
+
 inline void randomCase(Ctx& c, long idx)
 {
     Rng r = c.caseRng(idx);
@@ -277,10 +303,11 @@ constexpr long kKindSweeps = K_COUNT * 4;
 constexpr long kFieldSweeps = 3;
 constexpr long kValiditySweeps = 7;
 constexpr long kInnerLengthSweeps = 21;
+constexpr long kManyMessages = 8;
 
 inline long count(Ctx& c)
 {
-    return kKindSweeps + kFieldSweeps + kValiditySweeps + kInnerLengthSweeps + (c.thorough() ? 2000000 : 40000);
+    return kKindSweeps + kFieldSweeps + kValiditySweeps + kInnerLengthSweeps + kManyMessages + (c.thorough() ? 2000000 : 40000);
 }
 
 inline void run(Ctx& c, long idx)
@@ -296,7 +323,10 @@ inline void run(Ctx& c, long idx)
     idx -= kValiditySweeps;
     if (idx < kInnerLengthSweeps)
         return innerLengthSweep(c, idx);
-    randomCase(c, idx + kKindSweeps + kFieldSweeps + kValiditySweeps + kInnerLengthSweeps);
+    idx -= kInnerLengthSweeps;
+    if (idx < kManyMessages)
+        return manyMessages(c, idx);
+    randomCase(c, idx + kKindSweeps + kFieldSweeps + kValiditySweeps + kInnerLengthSweeps + kManyMessages);
 }
 
 }  // namespace c04
